@@ -108,7 +108,14 @@ fn main() {
             c.add_violation(Violation::new("C12", k, d.clone()), "cam_offset", J::obj().set("kind", J::s("case")).set("case", J::s(d)), vec![]);
         }
         let stride = if thorough { 1 } else { 5 };
-        let (n, v) = c12::mmio_cam_sweep(cam, stride);
+        let (n, v) = match vlab::util::catch(|| c12::mmio_cam_sweep(cam, stride)) {
+            Ok(r) => r,
+            Err(p) if vlab::util::is_driver_panic(&p) => (1, vec![("mmio-cam-access".to_string(), format!("the library panicked during configuration accesses through {:?}: {}", cam, p))]),
+            Err(p) => {
+                c.machinery_error(format!("MmioCam sweep: harness panic: {}", p));
+                (0, vec![])
+            }
+        };
         c.add_sweep(&format!("MmioCam:{:?}: read+write through the MMIO interception, every {}th tuple", cam, stride), n, n / 2, stride == 1, J::obj());
         if stride != 1 {
             // Not complete in the quick tier: stated, and the cam_offset sweep above is complete.
@@ -134,6 +141,24 @@ fn main() {
         }
     }
     c.add_sweep("enumerate_bus: all 256 raw header-type bytes on three populations", 768, 768, true, J::obj());
+    // Identity values at the edges: device ids 0x0000 / 0xffff / 0x0001 / 0xfffe under ordinary
+    // and edge vendor ids (a function is absent only if its vendor id reads 0xffff).
+    {
+        let mut n = 0u64;
+        for ven in [0x1af4u16, 0x0001, 0xfffe, 0x8086] {
+            for dev in [0x0000u16, 0xffff, 0x0001, 0xfffe] {
+                for pop in [0b000001u8, 0b010011, 0b111111] {
+                    // Multi-function device 0 so that functions 1 and 7 are probed.
+                    let ids = [(ven, dev), (0x1b36, dev), (ven, 0x1042), (ven, dev), (0x1234, 0x5678), (ven, dev)];
+                    n += 1;
+                    for (k, d) in c12::enumerate_case_ids(pop, [0x80, 0, 0, 0, 0x80, 0], Some(ids)) {
+                        c.add_violation(Violation::new("C12", k, format!("vendor {:#06x} device {:#06x}: {}", ven, dev, d)), "enumerate_bus", J::obj().set("kind", J::s("case")).set("case", J::s(d)), vec![]);
+                    }
+                }
+            }
+        }
+        c.add_sweep("enumerate_bus: device ids 0x0000, 0xffff, 0x0001, 0xfffe under 4 vendor ids on three populations", n, n, true, J::obj());
+    }
     // (5) capability walking
     let alpha = cap_alphabet();
     let mut lists: Vec<Vec<CapSpec>> = vec![vec![]];
